@@ -4,5 +4,5 @@ set -e
 cd "$(dirname "$0")"
 export CARGO_NET_OFFLINE=true
 (cd lean && lake build)
-(cd harness && { [ -f prebuild.sh ] && bash prebuild.sh; cargo build --offline; })
+(cd harness && { [ -f prebuild.sh ] && bash prebuild.sh; cargo build --offline; cargo build --offline --features pre --target-dir target_pre; })
 echo "setup ok"
